@@ -214,7 +214,19 @@ both_families! {
 			POp::SymPush(s) => h.symbolic_push(Segment::new(s.as_str()).unwrap()),
 			POp::SymAppend(v) => {
 				let segs: Vec<&Segment> = v.iter().map(|s| Segment::new(s.as_str()).unwrap()).collect();
-				h.symbolic_append(segs)
+				// any IntoIterator is a legal argument: alternate between the vector itself, an iterator whose
+				// size_hint is loose (0, Some(usize::MAX)) and one without an upper bound
+				match segs.len() % 3 {
+					0 => h.symbolic_append(segs),
+					1 => {
+						let n = segs.len();
+						h.symbolic_append((0..usize::MAX).take_while(|i| *i < n).map(|i| segs[i]))
+					}
+					_ => {
+						let mut it = segs.iter().copied();
+						h.symbolic_append(std::iter::from_fn(move || it.next()))
+					}
+				}
 			}
 			POp::Normalize => h.normalize(),
 			POp::Read => {}
@@ -511,8 +523,8 @@ impl Prop for C10 {
 					continue;
 				}
 				let fam = if (i + k) % 2 == 0 { Fam::Uri } else { Fam::Iri };
-				let embed = Some(Embed { full: k % 2 == 0, scheme: if k % 2 == 0 { Some("s".into()) } else { None }, authority: if k % 3 == 0 { Some("h".into()) } else { None }, query: Some("q".repeat(t)), fragment: Some("fragment".into()) });
-				if !f(Case { fam, embed, abs: k % 3 == 0, segs: if k % 2 == 0 { vec![] } else { vec!["a".into(), "..".into()] }, ops: vec![POp::Push("s".repeat(sl)), POp::Normalize, POp::Push("t".into())] }, true) {
+				let embed = Some(Embed { full: k % 2 == 0, scheme: if k % 2 == 0 { Some("s".into()) } else { None }, authority: if k % 3 == 0 { Some("h".into()) } else { None }, query: Some(gen::filler(t)), fragment: Some("fragment".into()) });
+				if !f(Case { fam, embed, abs: k % 3 == 0, segs: if k % 2 == 0 { vec![] } else { vec!["a".into(), "..".into()] }, ops: vec![POp::Push(gen::filler(sl)), POp::Normalize, POp::Push("t".into())] }, true) {
 					return vec![];
 				}
 			}
@@ -558,7 +570,7 @@ impl Prop for C10 {
 			}
 		}
 		// all initial paths of <= 2 segments over {a, '', ., .., a:b} x 4 hosts x ALL op sequences of length <= 2
-		let alphabet = ["a", "", ".", "..", "a:b", "C:"];
+		let alphabet = ["a", "", ".", "..", "a:b", "C:", "%2E"];
 		let mut inits: Vec<Vec<String>> = vec![vec![]];
 		for x in alphabet {
 			inits.push(vec![x.to_string()]);
